@@ -45,7 +45,9 @@ var c09Units = func() []c09Unit {
 	return us
 }()
 
-var c09Amounts = []string{"0", "1", "11", "12", "13", "23", "24", "25", "59", "60", "61", "365", "366", "1000", "1.5", "0.999", "-1", "-13", "20000", "106751", "106752", "110000", "3000000", "9999999999"}
+var c09Amounts = []string{"0", "1", "11", "12", "13", "23", "24", "25", "59", "60", "61", "365", "366", "1000", "1.5", "0.999", "-1", "-13", "20000", "106751", "106752", "110000",
+	// ascending (the monotonicity pass reads them in this order); around 2^63 ns counted in hours, seconds, minutes and milliseconds (a duration's span) and around 2^63 / 1000
+	"2562047", "2562048", "3000000", "9223372", "9223373", "10000000", "100000000", "153722867", "153722868", "9223372036", "9223372037", "9999999999", "9223372036854", "9223372036855"}
 
 func c09AmountClass(a string) string {
 	switch {
@@ -487,6 +489,63 @@ func init() {
 						}
 					}
 				}},
+				{Name: "chains", N: len(c09EvalValues()), Note: "x op q1 op q2 with two quantity literals of one unit (every keyword unit x 6 amount pairs x 4 operator pairs) written as a chain, with parentheses and in two evaluations: all three equal the reference applied twice (a chain is two steps, not one step by the sum)", Run: func(i int, r *core.Rec) {
+					v := c09EvalValues()[i]
+					show := func(res lib.Res) string {
+						if res.OK() && len(res.Coll) == 1 {
+							switch x := res.Coll[0].(type) {
+							case system.Date:
+								return x.String()
+							case system.DateTime:
+								return x.String()
+							case system.Time:
+								return "T" + x.String()
+							}
+						}
+						return res.Class() + ":" + res.String()
+					}
+					for _, u := range c09Units {
+						if u.class != "keyword" {
+							continue
+						}
+						for _, am := range [][2]string{{"1", "1"}, {"2", "2"}, {"12", "12"}, {"30", "30"}, {"1", "2"}, {"500", "500"}} {
+							for _, ops := range [][2]int{{1, 1}, {-1, -1}, {1, -1}, {-1, 1}} {
+								opS := func(k int) string {
+									if k < 0 {
+										return "-"
+									}
+									return "+"
+								}
+								q1, q2 := am[0]+" "+u.lit, am[1]+" "+u.lit
+								chain := lib.Run("@"+v.text+" "+opS(ops[0])+" "+q1+" "+opS(ops[1])+" "+q2, nil, nil)
+								paren := lib.Run("(@"+v.text+" "+opS(ops[0])+" "+q1+") "+opS(ops[1])+" "+q2, nil, nil)
+								r.Eval()
+								r.Eval()
+								r.State("chain|" + v.class + "|" + c09RelClass(v, u) + "|" + opS(ops[0]) + opS(ops[1]))
+								r.Nontrivial(chain.Src, show(chain))
+								key := func(d string) string {
+									return strings.Join([]string{"chain", v.class, c09RelClass(v, u), opS(ops[0]) + opS(ops[1]), d}, "|")
+								}
+								if show(chain) != show(paren) {
+									r.Fail(key("chain!=parenthesised"), core.W{"chain": chain.Src, "chain_result": show(chain), "parenthesised": paren.Src, "parenthesised_result": show(paren)})
+									continue
+								}
+								// reference: two steps
+								mid, st1, _ := c09Ref(v.ref, ops[0], am[0], u)
+								if st1 != "value" {
+									continue
+								}
+								want, st2, _ := c09Ref(mid, ops[1], am[1], u)
+								if st2 != "value" {
+									continue
+								}
+								if chain.OK() && show(chain) != want.Text() {
+									r.Fail(key("value!=two-reference-steps"), core.W{"chain": chain.Src, "got": show(chain), "want": want.Text(), "after_first_step": mid.Text()})
+								}
+							}
+						}
+					}
+				}},
 				{Name: "quantity-arithmetic", N: 1, Note: "all ordered pairs of a quantity pool x {+,-}: only within one unit", Run: func(i int, r *core.Rec) {
 					pool := []struct{ n, u string }{{"1", "mg"}, {"2.5", "mg"}, {"1", "kg"}, {"3", "days"}, {"1", "day"}, {"1", "week"}, {"7", "days"}, {"1", "1"}, {"0", "mg"}, {"-1", "mg"},
 						// units that differ only in letter case, only by a trailing s, or by a prefix: different units all the same
@@ -585,10 +644,7 @@ func c09Bulk(r *core.Rec, vals []c09Value) {
 				}
 				var outs []outc
 				for _, amount := range c09Amounts {
-					q, err := system.ParseQuantity(amount, u.text)
-					if err != nil {
-						continue
-					}
+					q := lib.Qty(amount, u.text) // built without the repository's constructor
 					text, gerr, pi := c09Apply(v, sign, q)
 					r.Eval()
 					if r.WantSample() {
